@@ -4409,6 +4409,8 @@ _index_form_to_dtype = _index_form_to_index = _form_to_layout_class = None
 
 
 def _asbuf(obj):
+    if isinstance(obj, (bytes, bytearray)):
+        return numpy.frombuffer(obj, np.uint8)
     try:
         tmp = numpy.asarray(obj)
     except Exception:
